@@ -32,7 +32,8 @@ fn lengths_around(l: usize) -> Vec<usize> {
 
 fn head(n: usize, rng: &mut Rng, variant: usize) -> Vec<u8> {
     let mut h = Vec::new();
-    h.extend_from_slice(gen::METHODS[1 + variant % 2]);
+    // all three methods: the connection applies the limit to whatever declares a body (GET included)
+    h.extend_from_slice(gen::METHODS[if variant % 7 == 3 { 0 } else { 1 + variant % 2 }]);
     h.extend_from_slice(b" /limit HTTP/1.");
     h.push(b'0' + (variant % 2) as u8);
     h.extend_from_slice(b"\r\n");
